@@ -8,6 +8,13 @@ pub mod parser;
 mod serde;
 pub mod subtags;
 
+/// Verification hook (off unless built with `--cfg unic_locale_verif`): read-only
+/// view of the compiled character-direction tables.
+#[cfg(unic_locale_verif)]
+pub mod verif_hooks {
+    pub use crate::layout_table::*;
+}
+
 pub use crate::errors::LanguageIdentifierError;
 use std::fmt::Write;
 use std::iter::Peekable;
